@@ -6,6 +6,7 @@ package lexer
 // Position bookkeeping (C12, C13): loc is the location of offset end, prev the location before the
 // last rune read; next advances both consistently, backup undoes exactly one next.
 //@ func lexer.lexer.next returns r
+//@   assigns obj(l)
 //@   property C12 C13
 //@   mode panics
 //@   requires l != nil && l.end >= 0
@@ -13,9 +14,11 @@ package lexer
 //@   ensures[advance] old(l.end) < len(l.input) ==> l.end == old(l.end) + l.width && l.prev.Line == old(l.loc.Line) && l.prev.Column == old(l.loc.Column)
 //@   ensures[newline] old(l.end) < len(l.input) && r == 10 ==> l.loc.Line == old(l.loc.Line) + 1 && l.loc.Column == 0
 //@   ensures[same-line] old(l.end) < len(l.input) && r != 10 ==> l.loc.Line == old(l.loc.Line) && l.loc.Column == old(l.loc.Column) + 1
+//@   ensures[monotone] l.end >= old(l.end)
 //@   ensures[start] l.start == old(l.start) && l.startLoc.Line == old(l.startLoc.Line) && l.startLoc.Column == old(l.startLoc.Column)
 
 //@ func lexer.lexer.backup
+//@   assigns obj(l)
 //@   property C12 C13
 //@   mode panics
 //@   requires l != nil
@@ -23,6 +26,7 @@ package lexer
 
 // a token is stamped with the location of its first character (startLoc) and the next token starts at loc
 //@ func lexer.lexer.emitValue
+//@   assigns obj(l), obj(l.tokens)
 //@   property C12 C13
 //@   mode panics
 //@   requires l != nil && obj(l.tokens) != obj(l)
@@ -32,6 +36,7 @@ package lexer
 //@   ensures[restart] l.start == l.end && l.startLoc.Line == l.loc.Line && l.startLoc.Column == l.loc.Column
 
 //@ func lexer.lexer.ignore
+//@   assigns obj(l)
 //@   property C12 C13
 //@   mode panics
 //@   requires l != nil
@@ -39,6 +44,7 @@ package lexer
 
 // escapes (C12): a hexadecimal digit has its positional value, whatever its case
 //@ func lexer.unhex returns r ok
+//@   pure
 //@   property C12
 //@   mode nopanic
 //@   ensures[digit] b >= 48 && b <= 57 ==> ok && r == int32(b) - 48
@@ -48,6 +54,7 @@ package lexer
 
 // unescapeChar never reads past the end of its (non-empty) input (C04): a truncated escape is an error value
 //@ func lexer.unescapeChar returns value multibyte tail err
+//@   assigns nothing
 //@   property C04 C12
 //@   mode nopanic
 //@   requires len(s) > 0
@@ -57,7 +64,12 @@ package lexer
 
 // acceptWord is a lookahead: when the word does not follow, the lexer is exactly where it was (C12, C13)
 //@ func lexer.lexer.acceptWord returns ok
+//@   assigns obj(l)
 //@   property C12 C13
 //@   mode panics
 //@   requires l != nil && l.end >= 0
+//@   loop 0 modifies obj(l)
+//@   loop 0 invariant[end] l.end >= 0
+//@   loop 1 modifies obj(l)
+//@   loop 1 invariant[end] l.end >= 0
 //@   ensures[rewind] !ok ==> l.end == old(l.end) && l.loc.Line == old(l.loc.Line) && l.loc.Column == old(l.loc.Column) && l.prev.Line == old(l.prev.Line) && l.prev.Column == old(l.prev.Column)
